@@ -1334,7 +1334,8 @@ class String(ConstantOpcode):
     priority = Unicode.priority + 1
 
     def encode_body(self) -> bytes:
-        return repr(self.arg).encode("utf-8")
+        # a quoted, escaped ASCII literal terminated by a newline
+        return repr(self.arg).encode("ascii") + b"\n"
 
     @classmethod
     def validate(cls, obj):
@@ -1639,13 +1640,14 @@ class ShortBinString(DynamicLength, ConstantOpcode):
     length_bytes = 1
 
     def encode_body(self) -> bytes:
-        return repr(self.arg).encode("utf-8")
+        # the raw bytes of the string, which readers decode as Latin-1
+        return self.arg.encode("latin-1")
 
     @classmethod
     def validate(cls, obj):
         if not isinstance(obj, str):
             raise ValueError(f"String must be instantiated from a str, not {obj!r}")
-        return obj
+        return super().validate(obj)
 
 
 class BinString(DynamicLength, ConstantOpcode):
@@ -1655,7 +1657,8 @@ class BinString(DynamicLength, ConstantOpcode):
     signed = True
 
     def encode_body(self) -> bytes:
-        return repr(self.arg).encode("utf-8")
+        # the raw bytes of the string, which readers decode as Latin-1
+        return self.arg.encode("latin-1")
 
     @classmethod
     def validate(cls, obj):
